@@ -218,6 +218,68 @@ func c14Enc(h []c14Op, nparams int) string {
 	return strings.Join(s, ",")
 }
 
+// c14Predict is the Go twin of Model/History.v (the class predicate of KF-15 must say exactly when the
+// known panic occurs): it runs the history on (named, id, value) triples with the semantics of
+// AssignIDs and SetName and reports whether a print panics.
+type c14Item struct {
+	named, value bool
+	id           int64
+}
+
+func c14Predict(np int, namedParams []bool, blockNamed bool, h []c14Op) (panics bool) {
+	var l []c14Item
+	for i := 0; i < np; i++ {
+		l = append(l, c14Item{named: namedParams[i], value: true})
+	}
+	l = append(l, c14Item{named: blockNamed, value: true})
+	first := np + 1 // index of the first instruction
+	ninst := 0
+	assign := func() bool {
+		id := int64(0)
+		for i := range l {
+			if l[i].value && !l[i].named {
+				if l[i].id != 0 && l[i].id != id {
+					return false
+				}
+				l[i].id = id
+				id++
+			}
+		}
+		return true
+	}
+	for _, o := range h {
+		switch o.kind {
+		case 'I':
+			p := o.pos
+			if p > ninst {
+				p = ninst
+			}
+			it := c14Item{named: o.named && o.ikind == 'I', value: o.ikind == 'I'}
+			l = append(l, c14Item{})
+			copy(l[first+p+1:], l[first+p:])
+			l[first+p] = it
+			ninst++
+		case 'R':
+			if o.pos < ninst {
+				l = append(l[:first+o.pos], l[first+o.pos+1:]...)
+				ninst--
+			}
+		case 'N':
+			if o.pos <= np || (o.pos-np-1 < ninst && l[o.pos].value) {
+				if o.pos < len(l) {
+					l[o.pos].named = o.named
+					l[o.pos].id = 0
+				}
+			}
+		case 'P':
+			if !assign() {
+				return true
+			}
+		}
+	}
+	return !assign()
+}
+
 // class predicate of KF-15: after a print, an unnamed value instruction is inserted before (or a
 // numbered one removed / an entry renamed before) an already numbered unnamed value
 func c14Class(h []c14Op) string {
@@ -282,8 +344,8 @@ func runC14(c *config) {
 		}
 		if with != without {
 			cls := ""
-			if with == "Panic" && without != "Panic" {
-				cls = c14Class(h) // the recorded kind of failure: the later print panics
+			if with == "Panic" && without != "Panic" && c14Predict(np, named, bn, h) {
+				cls = c14Class(h) // the recorded kind of failure: the later print panics, exactly where the ID check predicts it
 			}
 			o.Fail("observers_noop", cls, "final text differs with and without the observer calls", map[string]interface{}{"initial": init, "history": c14Enc(h, np), "with": with, "without": without})
 		} else {
